@@ -567,4 +567,62 @@ def dataclassDecodeFirst {V : Type} (unpackAll : List Fmt → Bytes → Option (
       | .error e => .error e
       | .ok as => dataclassInit splice dd as []) data
 
+/-! ### inheritance between dataclass payloads: class-level state
+
+  `@dataclass class Child(Parent)`: `dataclasses.fields(Child)` = parent fields ++ own fields.  `format_list`, `names`
+  and the three generated methods are CLASS attributes that `convert_to_payload(cls)` sets on `cls` itself; a class
+  that was not converted yet finds them through the MRO on its nearest converted ancestor (or the empty lists of
+  VariablePayload).  `__new__` converts the class being instantiated, unconditionally.  Single inheritance chains:
+  class `k` extends class `k-1`. -/
+
+structure DChain (V : Type) where
+  levels : List (List (String × Ty × Option V))       -- own fields of class 0, 1, 2, ...
+  fixPack : List (String × (V → V)) := []
+  fixUnpack : List (String × (V → V)) := []
+
+/-- `dataclasses.fields(class k)` -/
+def DChain.eff {V : Type} (c : DChain V) (k : Nat) : List (String × Ty × Option V) :=
+  (c.levels.take (k + 1)).flatten
+
+/-- the dataclass payload that class `k` denotes: the flattened field list -/
+def DChain.ddef {V : Type} (c : DChain V) (k : Nat) : DDef V :=
+  { fields := c.eff k, fixPack := c.fixPack, fixUnpack := c.fixUnpack }
+
+/-- attribute lookup through the MRO: the nearest class among k, k-1, .., 0 that has been converted -/
+def nearest (conv : List Nat) : Nat → Option Nat
+  | 0 => if conv.contains 0 then some 0 else none
+  | k + 1 => if conv.contains (k + 1) then some (k + 1) else nearest conv k
+
+/-- state after instantiating classes in the given order (`__new__` converts unconditionally) -/
+def runInst (evs : List Nat) : List Nat := evs.foldl (fun conv k => k :: conv) []
+
+/-- `cls.format_list`, `cls.names` as seen on class `k` in state `conv` -/
+def DChain.classData {V : Type} (c : DChain V) (conv : List Nat) (k : Nat) : Except Err (List Fmt × List String) :=
+  match nearest conv k with
+  | none => .ok ([], [])
+  | some j => match (c.ddef j).toPDef with
+    | .ok d => .ok (d.fmts, d.names)
+    | .error e => .error e
+
+/-- `Class_k(*args, **kw)` in state `conv`: `__new__` converts class k, then the `__init__` found on it runs -/
+def DChain.hierInit {V : Type} (splice : V → Option V) (c : DChain V) (conv : List Nat) (k : Nat)
+    (args : List V) (kw : KW V) : Except Err (Attrs V) :=
+  match nearest (k :: conv) k with
+  | none => .error .typeError
+  | some j => dataclassInit splice (c.ddef j) args kw
+
+/-- `unpack_serializable(Class_k, data)` in state `conv` (no instantiation of class k implied) -/
+def DChain.hierDecode {V : Type} (unpackAll : List Fmt → Bytes → Option (List V)) (splice : V → Option V)
+    (isNone : V → Bool) (c : DChain V) (conv : List Nat) (k : Nat) (data : Bytes) : Except Err (Attrs V) :=
+  match nearest conv k with
+  | none => dataclassDecodeFirst unpackAll splice (c.ddef k) data
+  | some j => match (c.ddef j).toPDef with
+    | .error e => .error e
+    | .ok d => decodeWith unpackAll d.fmts (dataclassUnpack splice isNone (c.ddef j)) data
+
+/-- an uncompiled subclass of a vp_compile'd class inherits the parent's GENERATED methods -/
+def hybridInit {V : Type} (splice : V → Option V) (parent : PDef V) (args : List V) (kw : KW V) :
+    Except Err (Attrs V) :=
+  compiledInit splice parent args kw
+
 end Ipv8.C20
